@@ -5,7 +5,7 @@
    ucan.VerifySignature with every key of the cast.  The check evaluates
    view_block (token_decode bytes) and compares field by field. *)
 From Ucanto Require Import Base Varint VarintMore Ipld Cbor Formats BaseEnc JsonText Sig Did DagJson Signing Check_Json.
-From Ucanto Require Import Pattern Time Validator TokenView.
+From Ucanto Require Import Pattern Time Validator TokenBytes TokenView.
 Open Scope N_scope.
 
 (* one token: its link number, root block bytes, the harness's rendering, the key ids k for which
@@ -179,7 +179,7 @@ Section One.
 
   (* the model's token for a block, with the signature primitive as observed for this token *)
   Definition model_token (full : bool) (x : tvtok) : token :=
-    match token_decode (tt_bytes x) with
+    match token_decode_typed (tt_bytes x) with
     | Some t =>
       view_token_with w_num ds_tbl w_keys
         (if full then sigv_calls ds_tbl w_alg (tv_calls w) else sigv_obs ds_tbl w_alg (tt_sigkeys x)) t
@@ -188,7 +188,7 @@ Section One.
 
   (* ucan.VerifySignature(token, the did:key verifier of key k), for every key, as a key list *)
   Definition model_verifs (full : bool) (x : tvtok) : list N :=
-    match token_decode (tt_bytes x) with
+    match token_decode_typed (tt_bytes x) with
     | Some t =>
       filter (fun k => if beq (u_iss t) (w_did k)
                        then (if full then sigv_calls ds_tbl w_alg (tv_calls w) t k
@@ -234,7 +234,7 @@ Theorem model_token_is_view dids w x :
   model_token (did_table dids) w false x =
   view_block (w_num w) (w_keys w) (valid_obs (tt_sigkeys x)) (w_alg w) (tt_bytes x).
 Proof.
-  unfold model_token, view_block. destruct (token_decode (tt_bytes x)) as [t|]; [|reflexivity].
+  unfold model_token, view_block. destruct (token_decode_typed (tt_bytes x)) as [t|]; [|reflexivity].
   unfold view_token. apply view_token_with_ext.
   - intros b. apply memo_did_eq.
   - intros k. apply sigv_obs_eq. intros b. apply memo_did_eq.
@@ -244,7 +244,7 @@ Theorem model_token_full_is_view dids w x :
   model_token (did_table dids) w true x =
   view_block (w_num w) (w_keys w) (valid_calls (tv_calls w)) (w_alg w) (tt_bytes x).
 Proof.
-  unfold model_token, view_block. destruct (token_decode (tt_bytes x)) as [t|]; [|reflexivity].
+  unfold model_token, view_block. destruct (token_decode_typed (tt_bytes x)) as [t|]; [|reflexivity].
   unfold view_token. apply view_token_with_ext.
   - intros b. apply memo_did_eq.
   - intros k. apply sigv_calls_eq. intros b. apply memo_did_eq.
@@ -252,7 +252,7 @@ Qed.
 
 (* and model_verifs is Signing.verify over the key table *)
 Theorem model_verifs_is_verify dids w x t :
-  token_decode (tt_bytes x) = Some t ->
+  token_decode_typed (tt_bytes x) = Some t ->
   model_verifs (did_table dids) w false x =
   filter (fun k => verify (valid_obs (tt_sigkeys x)) (w_alg w) (w_did w) t k) (w_keys w).
 Proof.
